@@ -11,6 +11,7 @@
    crash (atomic commit, WAL recovery) is trusted, not modelled (c09_process_death_partial). *)
 From HostdBase Require Import Base.
 From Coq Require Import String.
+From HostdTxn Require Import Retry ClosureTable RetryProofs.
 From HostdTxn Require Import Shape TxnTable Model Proofs.
 
 (** Obligations on the table regenerated from the source on every run *)
@@ -170,6 +171,93 @@ Theorem c09_tip_after_actions_diverges :
   d_marker (i_db (run_sync ex_next ex_upd ex_id ex_id true [(None, true); (None, false)] ex_s0)) = 2%N.
 Proof. exact tip_after_actions_diverges. Qed.
 Print Assumptions c09_tip_after_actions_diverges.
+
+(** Store.transaction re-runs its closure after "database is locked" (Retry.v): the database
+    part of a failed attempt is rolled back, the variables the closure shares with the function
+    around it are not.  [retry budget pat c d l]: up to [budget] attempts (29; 9 in the
+    `testing` build) of closure [c] on database [d] and captured state [l]; [pat] holds, per
+    attempt, the database call (Begin = 0, statements, Commit) that fails with "database is
+    locked", if any.  All of this for every interpretation of the closure's expressions and
+    statements, every database type and value type. *)
+
+(* a closure that (re)initialises every variable it assigns before it reads it (the syntactic
+   condition closed_closure): for every pattern of transient failures that leaves one attempt
+   of the budget, the result, the committed database and every captured variable are those of
+   the run without failures *)
+Theorem c09_retry_transparent : forall (V db : Type) (dflt : V) (I : interp V db) (fuel : nat) (c : cmd),
+  closed_closure c = true ->
+  forall (d : db) (l0 : local V) (budget : nat) (pat : list fcd), (List.length pat < budget)%nat ->
+  t_res (retry dflt I fuel budget pat c d l0) = t_res (retry dflt I fuel budget [] c d l0) /\
+  t_db (retry dflt I fuel budget pat c d l0) = t_db (retry dflt I fuel budget [] c d l0) /\
+  forall x, t_loc (retry dflt I fuel budget pat c d l0) x = t_loc (retry dflt I fuel budget [] c d l0) x.
+Proof. exact retry_transparent. Qed.
+Print Assumptions c09_retry_transparent.
+
+(* whatever the closure and the pattern: unless the transaction reports success the committed
+   database is untouched (in particular when the budget is exhausted) *)
+Theorem c09_retry_exhausted_no_effect : forall (V db : Type) (dflt : V) (I : interp V db) fuel budget pat c (d : db) (l : local V),
+  t_res (retry dflt I fuel budget pat c d l) <> TOk -> t_db (retry dflt I fuel budget pat c d l) = d.
+Proof. exact retry_no_commit_no_effect. Qed.
+Print Assumptions c09_retry_exhausted_no_effect.
+
+(* a database that stays locked uses the budget up: the busy error is returned, database and
+   captured state are as before *)
+Theorem c09_retry_budget_exhausted : forall (V db : Type) (dflt : V) (I : interp V db) fuel budget c (d : db) (l : local V),
+  retry dflt I fuel budget (repeat (Some O) budget) c d l = {| t_res := TExhausted; t_db := d; t_loc := l |}.
+Proof. exact retry_exhausted. Qed.
+Print Assumptions c09_retry_budget_exhausted.
+
+(* ... and wherever the attempts of a closed closure were interrupted before the budget ran
+   out, a captured variable differs from its initial value only if the run without failures
+   assigns it too *)
+Theorem c09_retry_exhausted_locals : forall (V db : Type) (dflt : V) (I : interp V db) (fuel : nat) (c : cmd),
+  closed_closure c = true ->
+  forall (d : db) (l0 : local V) pat budget,
+  t_res (retry dflt I fuel budget pat c d l0) = TExhausted ->
+  forall x, In x (a_wr (Retry.attempt dflt I fuel None c d l0)) \/ t_loc (retry dflt I fuel budget pat c d l0) x = l0 x.
+Proof. exact retry_exhausted_locals_l0. Qed.
+Print Assumptions c09_retry_exhausted_locals.
+
+(* REFUTED for a closure that accumulates into a captured variable (the shape of
+   RHP4CreditAccounts with its createdAccounts counter hoisted out of the closure): it is not
+   closed, and one "database is locked" at its first write makes the committed metric 2
+   instead of 1; with the counter declared inside the closure (as in the repository) it is
+   closed and the metric is 1 *)
+Theorem c09_retry_accumulating_refuted :
+  closed_closure leaky = false /\ closed_closure leaky_fixed = true /\
+  let l0 : local N := fun _ => 0%N in
+  let t := retry 0%N leaky_interp 20 go_budget [Some 2%nat] leaky 0%N l0 in
+  let t0 := retry 0%N leaky_interp 20 go_budget [] leaky 0%N l0 in
+  let tf := retry 0%N leaky_interp 20 go_budget [Some 2%nat] leaky_fixed 0%N l0 in
+  t_res t = TOk /\ t_res t0 = TOk /\ t_db t0 = 1%N /\ t_db t = 2%N /\ t_db tf = 1%N.
+Proof. exact leaky_refuted. Qed.
+Print Assumptions c09_retry_accumulating_refuted.
+
+(** Obligation on gen/ClosureTable.v, regenerated from the source on every run: every closure
+    handed to Store.transaction (85, incl. the chain-update closure of index/update.go) passes
+    closed_closure — except for the variables listed in RetryProofs.v: benign_reads (2,
+    reviewed) and known_accumulating (the recorded finding C09 retried-operation-differs-...;
+    fixes/C09-retry-resets-closure-state.patch closes them) *)
+Theorem c09_closures_closed : closures_ok = true.
+Proof. exact closures_ok_holds. Qed.
+Print Assumptions c09_closures_closed.
+
+(* the retry loop read from the source: `attempt := 1; for ; attempt < maxRetryAttempts; attempt++`
+   with maxRetryAttempts = 30 is the budget of 29 attempts used above, and the retried error
+   is the one whose text contains "database is locked" *)
+Theorem c09_retry_budget_ok : budget_ok = true.
+Proof. exact budget_ok_holds. Qed.
+Print Assumptions c09_retry_budget_ok.
+
+(* hence for every closure of the code base that has no exemption, retries are invisible *)
+Theorem c09_table_closures_retry_transparent : forall r, In r closure_table -> row_exempt r = [] ->
+  forall (V db : Type) (dflt : V) (I : interp V db) (fuel : nat) (d : db) (l0 : local V) budget pat,
+  (List.length pat < budget)%nat ->
+  t_res (retry dflt I fuel budget pat (cl_body r) d l0) = t_res (retry dflt I fuel budget [] (cl_body r) d l0) /\
+  t_db (retry dflt I fuel budget pat (cl_body r) d l0) = t_db (retry dflt I fuel budget [] (cl_body r) d l0) /\
+  forall x, t_loc (retry dflt I fuel budget pat (cl_body r) d l0) x = t_loc (retry dflt I fuel budget [] (cl_body r) d l0) x.
+Proof. exact table_rows_transparent. Qed.
+Print Assumptions c09_table_closures_retry_transparent.
 
 (* non-vacuity: the model predicts a real recorded call — ReviseContract with the 6th
    database call failing is rolled back and reports an error; with "database is locked"
